@@ -1,6 +1,4 @@
 SPECIFICATION Spec
-INVARIANT RoundTrip
-INVARIANT UpIsPixel
+INVARIANT PixelInv
 INVARIANT FullRange
-INVARIANT Injective
 CHECK_DEADLOCK FALSE
